@@ -22,6 +22,17 @@ LEVEL_NOTE = ("algo = spec theorems over Gallina models of the counting kernels;
 RECALL_FINDING = "C04-recall-weighted-absent-class"
 
 
+def known_ids():
+    """ids of findings that are still open; a fixed finding suppresses nothing"""
+    return {f["id"] for f in core.load_findings() if f.get("property") == "C04" and f.get("status") == "known"}
+
+
+def recall_pattern():
+    if RECALL_FINDING not in known_ids():
+        return None
+    return lambda c, b: RECALL_FINDING if recall_weighted_absent(c, b) else None
+
+
 def ents():
     return [e for e in entries() if e.__class__.__module__.endswith("families.counting")]
 
@@ -121,7 +132,7 @@ def exhaustive(ctx):
         e = ent(name)
         for a in e.averages:
             cfg = {"average": a, "num_classes": 3}
-            pat = (lambda c, b: RECALL_FINDING if recall_weighted_absent(c, b) else None) if name == "MulticlassRecall" else None
+            pat = recall_pattern() if name == "MulticlassRecall" else None
             triple_check(ctx, s, e, [(cfg, b) for b in lab + logit], spec, bad, pat)
         triple_check(ctx, s, e, [({"average": "micro", "num_classes": None, "_w": 3}, b) for b in lab_small + logit], spec, bad)
         triple_check(ctx, s, e, [({"average": a, "num_classes": 4}, b) for a in ("macro", None) for b in lab_small], spec, bad,
@@ -175,7 +186,8 @@ def exhaustive(ctx):
             triple_check(ctx, s, e, [(cfg, b) for b in bs], "tkacc_spec", bad)
     finish_triple(ctx, e, bad, "exhaustive")
     stale = [v for k, v in bad.items() if k[0] == "stale"]
-    ctx.oblige("finding-still-reproduces:" + RECALL_FINDING, not stale, detail=repr(core.canon(stale))[:800])
+    if RECALL_FINDING in known_ids():
+        ctx.oblige("finding-still-reproduces:" + RECALL_FINDING, not stale, detail=repr(core.canon(stale))[:800])
 
 
 def random_recall_spec(ctx):
@@ -188,8 +200,7 @@ def random_recall_spec(ctx):
     for k in range(ctx.n(150, 2000)):
         cfg = cfgs[k % len(cfgs)]
         cb.append((cfg, e.gen_batch(ctx.rng, cfg, ctx.rng.choice([1, 2, 3, 5, 8, 13, 40]))))
-    triple_check(ctx, s, e, cb, "mcrec_spec", bad,
-                 lambda c, b: RECALL_FINDING if recall_weighted_absent(c, b) else None)
+    triple_check(ctx, s, e, cb, "mcrec_spec", bad, recall_pattern())
     finish_triple(ctx, e, bad, "random")
 
 
